@@ -419,7 +419,17 @@ def r19_5(ck: Check) -> None:
                 ident = ("list", (sp.term("peer.host"), sp.term("peer.port"), sp.term("peer.direction")))
                 elem = ("e", keep[3][0][0], "elem")
                 same = [f for f in filts if f[0] == "cmp" and f[1] == "!=" and {f[2], f[3]} == {ident, ("sl", elem, None, C(3), None)}]
-                if same and item[0] == "list" and item[1][:3] == ident[1] and keep[2] == elem:
+                # ... provided they cannot fail on a row the reader tolerates (rows of older files and of published lists have three
+                # fields): the function runs inside the greeting handler, before the self-connection test
+                from ..engine.terms import subterms as _subterms
+                partial = [x for f in filts if f not in same for x in _subterms(f)
+                           if (x[0] == "s" and len(x) == 3) or (x[0] == "call" and not (x[1][0] == "g" and x[1][1] in (
+                               "builtin:len", "builtin:isinstance", "builtin:bool", "builtin:str", "builtin:tuple", "builtin:list")))]
+                if partial:
+                    detail = "the selection of rows to keep evaluates %s on every row of the existing file: a row without that field (or with " \
+                             "another format) makes write_peers raise inside the greeting handler — the greeting is lost, and with it the " \
+                             "detection of a connection to the node itself" % show(partial[0])[:100]
+                elif same and item[0] == "list" and item[1][:3] == ident[1] and keep[2] == elem:
                     ok = True
     if ok:
         ck.ok("R19.5", construct, "", dumps[0].loc)
